@@ -448,7 +448,7 @@ func HostileMessage(mid []byte, parsed bool) (m *fbb.Message, ok bool) {
 	return m, true
 }
 
-var relaySeq, batchSeq int
+var relaySeq, batchSeq, reconfSeq int
 
 func applyJailOp(h *mailbox.DirHandler, mbox string, op Op) string {
 	mid := string(op.MID)
@@ -462,6 +462,30 @@ func applyJailOp(h *mailbox.DirHandler, mbox string, op Op) string {
 			return "error: " + err.Error()
 		}
 		return "nil"
+	case "reconfigured":
+		// a history: the application points the SAME handler value at another mailbox directory (the exported
+		// MBoxPath field), prepares it and works there; everything must then happen in that directory and
+		// nothing in the one configured before. op.MID is the identifier of the message stored there.
+		other := filepath.Join(filepath.Dir(mbox), "mbox2")
+		old := h.MBoxPath
+		h.MBoxPath = other
+		defer func() { h.MBoxPath = old; h.Prepare() }()
+		if err := h.Prepare(); err != nil {
+			return "skipped: cannot prepare the second mailbox: " + err.Error()
+		}
+		reconfSeq++
+		in := MsgSpec{MID: fmt.Sprintf("RECONFIN%04d", reconfSeq%10000), To: []string{"N0DST"}}.Build()
+		out := MsgSpec{MID: fmt.Sprintf("RECONFOU%04d", reconfSeq%10000), To: []string{"N0AAA"}}.Build()
+		if err := h.ProcessInbound(in); err != nil {
+			return "error: " + err.Error()
+		}
+		_ = h.GetInboundAnswer(*fbb.NewProposal(in.MID(), "title", fbb.BasicProposal, []byte("x")))
+		if err := h.AddOut(out); err != nil {
+			return "error: " + err.Error()
+		}
+		h.GetOutbound()
+		h.SetSent(out.MID(), false)
+		return "ok"
 	case "batch-invalid-first", "batch-good-baddate-hostile", "batch-two-hostile":
 		// one ProcessInbound call with several messages (the public API is variadic): failures of
 		// earlier messages of the batch must not open the way for a later one
